@@ -21,14 +21,14 @@ type Fact struct {
 }
 
 type FuncFacts struct {
-	p      *Prog
-	fn     *ssa.Function
-	nc     map[*ssa.BasicBlock][]Fact
-	busy   map[*ssa.BasicBlock]bool
-	pdom   map[*ssa.BasicBlock]map[*ssa.BasicBlock]bool // pdom[a][b]: b post-dominates a
-	reach  map[*ssa.BasicBlock]map[*ssa.BasicBlock]bool
-	mp     map[[2]ssa.Instruction]bool
-	infeas map[*ssa.BasicBlock]bool
+	p       *Prog
+	fn      *ssa.Function
+	nc      map[*ssa.BasicBlock][]Fact
+	busy    map[*ssa.BasicBlock]bool
+	pdom    map[*ssa.BasicBlock]map[*ssa.BasicBlock]bool // pdom[a][b]: b post-dominates a
+	reach   map[*ssa.BasicBlock]map[*ssa.BasicBlock]bool
+	mp      map[[2]ssa.Instruction]bool
+	infeas  map[*ssa.BasicBlock]bool
 	derived map[*ssa.BasicBlock]map[Fact]bool
 }
 
